@@ -24,7 +24,8 @@ META = {
     "technique": "write/flush handler programs on the real server with compress_response=True; strict response reader + "
                  "full-stream gunzip (must reach end-of-stream, no trailing bytes) compared with the bytes written",
     "level_text": "Seeded random write/flush/finish programs with chunk sizes around the 1024-byte threshold, content types "
-                  "in/out of the whitelist (with parameters, upper-case), 10 Accept-Encoding forms, pre-set Vary / Content-Encoding / "
+                  "in/out of the whitelist (with parameters, upper-case; near-misses of whitelisted types and composed top-level/stem/"
+                  "structured-syntax-suffix types such as application/rss+xml, model/gltf+json), 10 Accept-Encoding forms, pre-set Vary / Content-Encoding / "
                   "Content-Length, GET/HEAD/POST, HTTP/1.0 and 1.1, ETag-304; decoded body == concatenation written; gzip only for "
                   "compressible types when Accept-Encoding mentions gzip; Vary includes Accept-Encoding (and keeps the app's tokens); "
                   "Content-Length == encoded length (HEAD compared with its GET twin).",
@@ -34,7 +35,8 @@ META = {
     "design_ref": "DESIGN.md §4 C29",
     "engine": "wire",
 }
-RULE = ("a case is (method, version form, Accept-Encoding form, If-None-Match form, handler program: optional Content-Type / Vary / "
+RULE = ("a case is (method, version form, Accept-Encoding form, If-None-Match form, handler program: optional Content-Type "
+        "(whitelisted / text / near-miss / composed with +xml, +json ... suffixes) / Vary / "
         "Content-Encoding / exact Content-Length, 1-4 writes of sizes {0,1,1023,1024,1025,2048,5000,70000} text or binary with "
         "flush placements, finish with or without chunk); non-trivial when a non-empty chunk is written and the request carries an "
         "Accept-Encoding header; distinct by the whole case")
@@ -50,6 +52,39 @@ CTYPES = [None, None, "text/plain", "text/html; charset=UTF-8", "text/css;charse
           "application/json; charset=UTF-8", "image/svg+xml", "application/xml", "application/javascript",
           "TEXT/HTML", "Application/JSON", "application/octet-stream", "image/png", "application/jsonx", "text", "",
           "application/x-javascript ; q=1", "video/mp4"]
+# Content types OUTSIDE the whitelist that resemble whitelisted ones: structured-syntax suffixes (RFC 6839), a whitelisted
+# type used as prefix / suffix / parameter, other top-level types, near-miss spellings.  None of them may be compressed.
+NEAR_CTYPES = [
+    "application/rss+xml", "application/soap+xml; charset=utf-8", "application/ld+json", "model/gltf+json",
+    "application/vnd.api+json", "application/vnd.google-earth.kml+xml", "application/problem+json", "application/mathml+xml",
+    "image/svg+xml-compressed", "application/json-seq", "application/jsonlines", "application/x-json", "application/xml-dtd",
+    "application/xml-external-parsed-entity", "application/javascript+module", "application/atom+xml+zip", "application/atom",
+    "application/xhtml", "image/svg", "application/x-javascript-config", "application/geo+json-seq", "application/epub+zip",
+    "application/cbor", "application/x-protobuf", "application/pdf", "application/wasm", "application/zip", "application/gzip",
+    "font/woff2", "audio/mpeg", "model/vrml", "message/rfc822", "multipart/mixed; boundary=text/plain", "image/png; note=text/html",
+    "application/octet-stream; type=application/json", "xtext/plain", "application/text/plain", "texts/plain", "text", "text-plain",
+    "/json", "json", "application/", "+xml", "+json", "application/+json", "x/y+xml", "image/jpeg", "image/svg+xml+gzip",
+]
+TOPS = ["application", "image", "model", "audio", "video", "message", "multipart", "font", "x-app", "texts", "tex", "text"]
+STEMS = ["rss", "soap", "ld", "vnd.api", "vnd.acme.v2", "gltf", "svg", "atom", "xhtml", "json", "xml", "javascript", "x", "plain",
+         "html", "csv", "octet-stream"]
+SUFFIXES = ["", "", "+xml", "+json", "+XML", "+Json", "+yaml", "+zip", "+gzip", "+cbor", "+json-seq", "+xml+x", "+text"]
+PARAMS = ["", "", "", "; charset=utf-8", ";charset=UTF-8", "; profile=\"text/html\"", " ; q=1"]
+
+
+def rand_ctype(rng):
+    """Content-Type for one case: absent, a whitelisted / text type (with parameters, upper-case), a fixed near-miss, or a
+    type composed from top-level x stem x structured-syntax suffix x parameter (mostly outside the whitelist)."""
+    r = rng.random()
+    if r < 0.55:
+        return rng.choice(CTYPES)
+    if r < 0.75:
+        return rng.choice(NEAR_CTYPES)
+    if r < 0.80:
+        return rng.choice(sorted(WHITELIST)) + rng.choice(PARAMS)
+    return "%s/%s%s%s" % (rng.choice(TOPS), rng.choice(STEMS), rng.choice(SUFFIXES), rng.choice(PARAMS))
+
+
 AE = [None, "gzip", "gzip", "gzip", "GZIP", "deflate", "gzip;q=0", "x-gzip", "identity", "deflate, gzip",
       "br;q=1.0, gzip;q=0.8, *;q=0.1", "", "gzi p"]
 SIZES = [0, 1, 1023, 1024, 1024, 1025, 2048, 5000]
@@ -59,7 +94,7 @@ VFORMS = [("1.1", None), ("1.1", None), ("1.1", "close"), ("1.0", None), ("1.0",
 def rand_case(rng):
     v, c = rng.choice(VFORMS)
     prog = []
-    ct = rng.choice(CTYPES)
+    ct = rand_ctype(rng)
     if ct is not None:
         prog.append(("set", "Content-Type", ct))
     r = rng.random()
@@ -101,7 +136,7 @@ def rand_case(rng):
 
 def shards(tier, seed):
     if tier == "quick":
-        return [{"n": 200, "j": j} for j in range(16)]
+        return [{"n": 270, "j": j} for j in range(16)]
     return [{"n": 4500, "j": j} for j in range(48)]
 
 
@@ -127,6 +162,12 @@ def directed_cases():
     yield dict(base, method="GET", version="1.0", prog=[("write", T), ("flush", False), ("write", T)])
     yield dict(base, method="GET", inm="match", prog=[("write", ("t", 2048, 5))])
     yield dict(base, method="GET", req_headers=[], prog=[("write", ("t", 2048, 5))])
+    # outside the whitelist although they carry a structured-syntax suffix / resemble a whitelisted type
+    for ct in ("application/rss+xml", "application/soap+xml; charset=utf-8", "application/ld+json", "model/gltf+json",
+               "image/svg+xml-compressed", "application/json-seq"):
+        yield dict(base, method="GET", prog=[("set", "Content-Type", ct), ("write", ("t", 2048, 6))])
+    yield dict(base, method="GET", prog=[("set", "Content-Type", "application/vnd.api+json"), ("write", ("t", 500, 6)),
+                                         ("flush", False), ("write", ("t", 600, 7))])
 
 
 def ae_mentions_gzip(case):
